@@ -1,6 +1,7 @@
 from .common import *
 def run(tier, a=None):
-    specs = [{'src': 'h_c04.cpp', 'defs': ['TAG=' + t]} for t in tags(tier)]
+    specs = [{'src': 'h_c04.cpp', 'defs': ['TAG=' + t], 'filter': 'c04_(rplus|lplus|between|rminus|lminus).*', 'maxpaths': 256} for t in tags(tier)]
+    specs += [{'src': 'h_c04.cpp', 'defs': ['TAG=' + t], 'filter': 'c04_alias.*', 'opts': {'structural': True}, 'maxpaths': 256} for t in tags(tier)]
     return simple('C04', tier, a, specs,
         'EXACT: M(X.rplus t)=M(X)M(exp t); M(X.lplus t)=M(exp t)M(X); M(X)M(X.between Y)=M(Y); M(Y)M(exp(X.rminus Y))=M(X) and M(exp(X.lminus Y))M(Y)=M(X) with rotation of the result below pi; every alias (plus/minus, + - * += *=, t+X, t.plus/lplus/rplus(X), lift, free functions) produces the same value and Jacobians as the canonical member.',
         ['no magnitude bound (real arithmetic)', 'relative rotation below pi for the minus forms', 'groups: ' + ','.join(tags(tier))])
